@@ -302,6 +302,7 @@ func (x *bufExec) do(g string, op BOp) {
 		ctl.Gate("drv.call")
 		x.r.Add(rec.Ev{"ev": "cancel", "g": g, "ctx": op.Ctx})
 		x.cancels[op.Ctx]()
+		x.r.Add(rec.Ev{"ev": "cancelled", "g": g, "ctx": op.Ctx})
 	case "range":
 		// package-level Range over a logging wrapper: at most N callbacks, then stop; M selects the last callback's behaviour
 		c := x.con(op.C)
